@@ -3,12 +3,12 @@ NEXT Next
 CONSTANTS
   NChunks = 2
   CS = 1
-  NGets = 3
+  NGets = 2
   Ranges <- AllRanges
   Plays <- NoPlay
   Forces <- NoForce
   MaxInv = 1
-  MaxTrim = 0
+  MaxTrim = 1
   MaxFail = 1
   Age <- LastOpen
   FixAwait = TRUE
